@@ -1,5 +1,7 @@
 SPECIFICATION Spec
-CONSTANTS MaxItems = 2
+CONSTANTS
+  MaxItems = 2
+  SetSrcOn = {1, 3}
 VIEW View
 INVARIANTS EmitState
 CHECK_DEADLOCK FALSE
